@@ -35,8 +35,16 @@ class Regex:
 class Match:
     """An abstract match object: groups are text-model strings (or None)."""
 
-    def __init__(self, regex, whole, groups, names):
+    def __init__(self, regex, whole, groups, names, spans=None):
         self.regex, self.whole, self.groups_, self.names = regex, whole, groups, names
+        self.spans = spans or []        # abstract (start, end) of the whole match and of every group
+
+    def span(self, i=0):
+        if isinstance(i, str):
+            i = self.names[i]
+        if not 0 <= i < len(self.spans):
+            raise IndexError("no such group")
+        return self.spans[i]
 
     def group(self, *idx):
         def one(i):
@@ -81,6 +89,31 @@ def _variants(subject, is_int_token):
         yield "".join(out), spans
 
 
+def _apos(subject, spans, cpos):
+    """Concrete position -> position in the text-model string (must not fall inside the spelling of a number)."""
+    if cpos < 0:
+        return -1
+    shift = 0
+    for a, b, tok in spans:
+        if cpos >= b:
+            shift += (b - a) - len(tok)
+        elif cpos > a:
+            raise SpellingDependent("a match boundary falls inside the spelling of a number")
+    return cpos - shift
+
+
+def _cpos(spans, apos):
+    """Position in the text-model string -> concrete position in this variant."""
+    shift = 0
+    for a, b, tok in spans:
+        a_abs = a - shift
+        if apos >= a_abs + len(tok):
+            shift += (b - a) - len(tok)
+        elif apos > a_abs:
+            raise SpellingDependent("a start position falls inside a number token")
+    return apos + shift
+
+
 def _back(concrete, spans, s, e):
     """Map the span [s, e) of the concrete string back to text-model form."""
     if s < 0:
@@ -113,33 +146,38 @@ def _short(r):
     return s if len(s) < 80 else s[:77] + "..."
 
 
-def match(regex, subject, is_int_token, how="match"):
+def _aspans(subject, spans, m, ngroups):
+    return tuple((_apos(subject, spans, m.start(i)), _apos(subject, spans, m.end(i))) for i in range(0, ngroups + 1))
+
+
+def match(regex, subject, is_int_token, how="match", pos=0):
     """how in match / fullmatch / search.  Returns Match or None; raises SpellingDependent."""
     results = []
     for conc, spans in _variants(subject, is_int_token):
-        m = getattr(regex.rx, how)(conc)
+        m = getattr(regex.rx, how)(conc, _cpos(spans, pos))
         if m is None:
             results.append((conc, None))
             continue
         whole = _back(conc, spans, m.start(), m.end())
         groups = tuple(_back(conc, spans, *m.span(i)) for i in range(1, regex.rx.groups + 1))
-        results.append((conc, (whole, groups)))
+        results.append((conc, (whole, groups, _aspans(subject, spans, m, regex.rx.groups))))
     r = _agree(results, "matches", regex.pattern)
     if r is None:
         return None
-    return Match(regex, r[0], list(r[1]), dict(regex.rx.groupindex))
+    return Match(regex, r[0], list(r[1]), dict(regex.rx.groupindex), list(r[2]))
 
 
-def finditer(regex, subject, is_int_token):
+def finditer(regex, subject, is_int_token, pos=0):
     results = []
     for conc, spans in _variants(subject, is_int_token):
         ms = []
-        for m in regex.rx.finditer(conc):
+        for m in regex.rx.finditer(conc, _cpos(spans, pos)):
             ms.append((_back(conc, spans, m.start(), m.end()),
-                       tuple(_back(conc, spans, *m.span(i)) for i in range(1, regex.rx.groups + 1))))
+                       tuple(_back(conc, spans, *m.span(i)) for i in range(1, regex.rx.groups + 1)),
+                       _aspans(subject, spans, m, regex.rx.groups)))
         results.append((conc, tuple(ms)))
     r = _agree(results, "finds matches", regex.pattern)
-    return [Match(regex, w, list(g), dict(regex.rx.groupindex)) for w, g in r]
+    return [Match(regex, w, list(g), dict(regex.rx.groupindex), list(sp)) for w, g, sp in r]
 
 
 def split(regex, subject, is_int_token, maxsplit=0):
@@ -202,3 +240,6 @@ def selftest():
     assert [m.whole for m in finditer(Regex(r"\S+"), " a \x010\x02 ", none)] == ["a", "\x010\x02"]
     assert match(Regex(r"[-+]?\d+$"), "\x010\x02", lambda t: True) is not None
     assert sub(Regex(r"\s+"), " ", "a  \x010\x02\t b", none) == "a \x010\x02 b"
+    m = match(Regex(r"(?P<tag>A|B) "), "B \x010\x02 \x011\x02", none)
+    assert m.span(0) == (0, 2) and m.span("tag") == (0, 1)
+    assert [x.whole for x in finditer(Regex(r"\S+"), "B \x010\x02 \x011\x02", none, pos=m.span(0)[1])] == ["\x010\x02", "\x011\x02"]
